@@ -114,6 +114,14 @@ def check_affine_map(F, run):
                   sample="%s: f((b−a)/2·x + (a+b)/2)" % path.split("::")[-1])
         good = isinstance(v, sym.Variant) and v.name == "Ok" and sym.is_zero(v.args[0] - sp.Symbol("CORE", real=True) * (right - left) / 2)
         run.check(good, "R9.2", path, "result-scale", F.loc(b), "the result is %s, expected core·(right−left)/2" % (v,), sample="result = core·(b−a)/2")
+        # tolerance handed to the core: the error of the result is (core tolerance)·(b−a)/2, so their product must be c·tol with a constant 0 < c <= 1
+        # (Gauss–Legendre), or the tolerance is handed down unscaled (tanh–sinh: product = tol·(b−a)/2, at most 2·tol on the property's intervals)
+        tcore = core[1] if len(core) > 1 else None
+        ratio = sp.simplify(tcore * (right - left) / 2 / tol) if hasattr(tcore, "free_symbols") else None
+        okt = ratio is not None and ((ratio.is_number and 0 < ratio <= 1) or sym.is_zero(ratio - (right - left) / 2))
+        run.check(okt, "R9.2", path, "tolerance-scale", F.loc(b),
+                  "the core integrator is given the tolerance %s: (core tolerance)·(right−left)/2 = %s·tol, expected a constant in (0, 1] times tol (or the unscaled tolerance): "
+                  "the accuracy of the result would depend on where the interval lies" % (tcore, ratio), sample="%s: core tolerance·scale = %s·tol" % (path.split("::")[-1], ratio))
 
 
 class UserFn(vecint.VInterp):
